@@ -605,7 +605,8 @@ def check_history(hist, stop_at_first=True):
                 scale = max(abs(f1(v)) for v in ya) or 1.0
                 # precondition: the marginal ray is not parallel to the axis in image space (afocal lens)
                 if pre_ua is not None and abs(pre_ua[-1]) > 1e-9 and not (abs(y) <= 1e-9 * (1 + scale)):
-                    V('image-solve-focus', ya_last=y, same_medium=feq(f1(ua[-1]), f1(ua[-2])))
+                    V('image-solve-focus', ya_last=y, same_medium=feq(f1(ua[-1]), f1(ua[-2])),
+                      launch_changed=launch_changed(o, pre_ya, pre_ua))
                 if pre_ua is None or not abs(pre_ua[-1]) > 1e-9:
                     break            # precondition failed (afocal): the call legitimately produced inf/NaN
             if viol and stop_at_first:
